@@ -32,7 +32,10 @@ InvokeEv == /\ Ev.e = "inv" /\ pend[Ev.p] = Idle
             /\ st' = st /\ i' = i + 1
 
 \* silent: the linearization point of a pending, not yet linearized call
+\* (linearization points are only taken right before a response or the end of the run is consumed: any linearization
+\*  can be rearranged that way without changing its order, and the search space shrinks by orders of magnitude)
 Linearize(p) ==
+    /\ Ev.e \in {"ret", "final"}
     /\ pend[p] # Idle /\ ~pend[p].lin
     /\ LET o == pend[p].op
            l == o.log
